@@ -1,6 +1,8 @@
 """C08 -- Q-vector and hkl conversions satisfy their defining algebra."""
 from __future__ import annotations
 
+import itertools
+
 import z3
 
 from vf import kit, core
@@ -13,9 +15,9 @@ CATCH = (UnitError, DTypeError, DimensionError, ValueError, TypeError)
 R = z3.Real
 
 
-def mat(name, unit=None, dtype=None):
+def mat(name, unit=None, dtype=None, dims=()):
     return Var(Buf([[R(f'{name}_{i}{j}') for j in range(3)] for i in range(3)], unit or NAMED['dimensionless'],
-                   dtype or DType.linear_transform3, origin='argument', tag=name))
+                   dtype or DType.linear_transform3, origin='argument', tag=name), dims)
 
 
 def matmul(A, B):
@@ -122,31 +124,11 @@ def ub_and_hkl(chk, mod):
                       z3.And(*[p.value.val[i][j] == want[i][j] for i in range(3) for j in range(3)]))
             chk.decided(f'{MOD}:ub_matrix_from_u_and_b/unit', p.value.unit == ua, detail=str(p.value.unit))
             chk.decided(f'{MOD}:ub_matrix_from_u_and_b/frame', not kit.frame_violations(p))
-    # hkl
-    uq = symbolic_unit('k_Q', NAMED['m'] ** -1)
-    mk = lambda: dict(Q_vec=arg('Q', 'invlength', dtype=VEC, unit=uq), ub_matrix=mat('UB', unit=ua), sample_rotation=mat('Rs', dtype=DType.rotation3))
-    a = mk()
-    Mx = matmul(a['sample_rotation'].val, a['ub_matrix'].val)
-    base = [det3(Mx) != 0]
-    paths = chk.explore(lambda: mod.hkl_vec_from_Q_vec(**mk()), base=base, catch=CATCH)
-    pre = f'{MOD}:hkl_vec_from_Q_vec'
-    for p in paths:
-        ok = p.kind == 'return'
-        chk.decided(f'{pre}/no-raise', ok, detail=repr(p.value)[:200])
-        if not ok:
-            continue
-        inv = [e for e in p.log if e[0] == 'inv']
-        chk.decided(f'{pre}/single-inversion', len(inv) == 1, detail=str(len(inv)))
-        if len(inv) != 1:
-            continue
-        _, A, X, det = inv[0]
-        hy = hyps_of(p, base)
-        chk.prove(f'{pre}/inverts-R.UB', hy, z3.And(*[A[i][j] == Mx[i][j] for i in range(3) for j in range(3)]))
-        chk.prove(f'{pre}/defined(det!=0)', hy, p.value.buf.defd)
-        Qv = a['Q_vec'].val
-        chk.prove(f'{pre}/hkl==X.Q/(2pi)', hy, z3.And(*[p.value.val[i] * 2 * PI == matvec(X, Qv)[i] for i in range(3)]))
-        chk.decided(f'{pre}/unit==unit(Q)/unit(UB)', p.value.unit == uq / ua, detail=str(p.value.unit))
-        chk.decided(f'{pre}/frame', not kit.frame_violations(p))
+    # hkl -- for every combination of scalar / array-valued operands (a rotation scan has one rotation per point, Q one vector
+    # per event): the proof is element-generic, which is sound only if the code does not branch on operand shapes
+    for dq, dub, drs in itertools.product(((), ('x',)), repeat=3):
+        stag = 'shape:' + ','.join('array' if d else 'scalar' for d in (dq, dub, drs))
+        chk.section(f'hkl_vec_from_Q_vec[{stag}]', hkl_variant, mod, ua, dq, dub, drs, stag)
     # M.X == I from Cramer's rule (certificate identities over fresh symbols), then M.(X.Q) == Q
     M_ = [[R(f'M{i}{j}') for j in range(3)] for i in range(3)]
     X_ = [[R(f'X{i}{j}') for j in range(3)] for i in range(3)]
@@ -172,6 +154,35 @@ def ub_and_hkl(chk, mod):
         rhs = (kq * (sum(M_[i][j] * (2 * PI * h_[j] - y[j]) for j in range(3)) + (sum(M_[i][j] * y[j] for j in range(3)) - Qs[i]))
                + (sc_ * kb - kq) * 2 * PI * sum(M_[i][j] * h_[j] for j in range(3)))
         chk.prove(f'{P}/si-bridge[{i}]/certificate-identity', [], lhs == rhs)
+
+
+def hkl_variant(chk, mod, ua, dq, dub, drs, stag):
+    uq = symbolic_unit('k_Q', NAMED['m'] ** -1)
+    mk = lambda: dict(Q_vec=arg('Q', 'invlength', dtype=VEC, unit=uq, dims=dq), ub_matrix=mat('UB', unit=ua, dims=dub),
+                      sample_rotation=mat('Rs', dtype=DType.rotation3, dims=drs))
+    a = mk()
+    Mx = matmul(a['sample_rotation'].val, a['ub_matrix'].val)
+    base = [det3(Mx) != 0]
+    paths = chk.explore(lambda: mod.hkl_vec_from_Q_vec(**mk()), base=base, catch=CATCH)
+    pre = f'{MOD}:hkl_vec_from_Q_vec'
+    for p in paths:
+        if p.kind == 'return' and len([e for e in p.log if e[0] == 'inv']) != 1:
+            # not the documented single inversion of R.UB: the certificate chain below does not apply to this implementation;
+            # the defining relation 2 pi R UB hkl == Q is then decided by the bounded numeric stand-in for this operand shape
+            raise core.Unsupported(f'hkl_vec_from_Q_vec does not invert R.UB once for operands {stag}')
+    for p in paths:
+        ok = p.kind == 'return'
+        chk.decided(f'{pre}/no-raise[{stag}]', ok, detail=repr(p.value)[:200])
+        if not ok:
+            continue
+        _, A, X, det = [e for e in p.log if e[0] == 'inv'][0]
+        hy = hyps_of(p, base)
+        chk.prove(f'{pre}/inverts-R.UB[{stag}]', hy, z3.And(*[A[i][j] == Mx[i][j] for i in range(3) for j in range(3)]))
+        chk.prove(f'{pre}/defined(det!=0)[{stag}]', hy, p.value.buf.defd)
+        Qv = a['Q_vec'].val
+        chk.prove(f'{pre}/hkl==X.Q/(2pi)[{stag}]', hy, z3.And(*[p.value.val[i] * 2 * PI == matvec(X, Qv)[i] for i in range(3)]))
+        chk.decided(f'{pre}/unit==unit(Q)/unit(UB)[{stag}]', p.value.unit == uq / ua, detail=str(p.value.unit))
+        chk.decided(f'{pre}/frame[{stag}]', not kit.frame_violations(p))
 
 
 def split_merge(chk, mod):
@@ -251,16 +262,70 @@ def _numeric_failures(n, seed, limit=3):
     return fails, worst
 
 
+def _array_operand_failures(n, seed, limit=3):
+    """hkl with scalar / array-valued Q, UB and sample rotation in every combination (rotation scans, per-event Q): the result must
+    satisfy 2 pi R_k UB_k hkl_k == Q_k element by element."""
+    import numpy as np
+    import scipp as sc
+    from scipy.spatial.transform import Rotation
+    from vf.realrun import real_module
+    tof = real_module('conversion.tof')
+    rng = np.random.default_rng(seed)
+    fails = []
+    K = 3
+    for i in range(n):
+        bits = [(i >> b) & 1 for b in range(3)]
+        Qs = rng.normal(size=(K, 3)) * 10 ** rng.uniform(-1, 1)
+        Rs = [Rotation.random(random_state=int(rng.integers(1 << 30))).as_matrix() for _ in range(K)]
+        UBs = []
+        for _ in range(K):
+            P_, _r = np.linalg.qr(rng.normal(size=(3, 3)))
+            UBs.append(Rotation.random(random_state=int(rng.integers(1 << 30))).as_matrix() @ (P_ @ np.diag(10 ** rng.uniform(-1, 1, size=3)) @ P_.T))
+        Qv = sc.vectors(dims=['x'], values=Qs, unit='1/angstrom') if bits[0] else sc.vector(Qs[0], unit='1/angstrom')
+        UB = (sc.spatial.linear_transforms(dims=['x'], values=np.array(UBs), unit='1/angstrom') if bits[1]
+              else sc.spatial.linear_transform(value=UBs[0], unit='1/angstrom'))
+        if bits[2]:
+            R_ = sc.spatial.rotations_from_rotvecs(sc.vectors(dims=['x'], values=[Rotation.from_matrix(r).as_rotvec() for r in Rs], unit='rad'))
+        else:
+            R_ = sc.spatial.rotations_from_rotvecs(sc.vector(Rotation.from_matrix(Rs[0]).as_rotvec(), unit='rad'))
+        try:
+            hkl = tof.hkl_vec_from_Q_vec(Q_vec=Qv, ub_matrix=UB, sample_rotation=R_)
+        except Exception as e:  # noqa: BLE001
+            if len(fails) < limit:
+                fails.append({'id': f'arrays{i}', 'seed': seed, 'index': i, 'kind': 'arrays', 'shapes': bits, 'raised': repr(e)[:200]})
+            continue
+        vals = hkl.values if hkl.ndim else np.array([hkl.value])
+        err = 0.0
+        for k in range(len(vals)):
+            q = Qs[k if bits[0] else 0]
+            back = 2 * np.pi * Rs[k if bits[2] else 0] @ UBs[k if bits[1] else 0] @ vals[k]
+            err = max(err, np.linalg.norm(back - q) / np.linalg.norm(q))
+        want_len = K if any(bits) else 1
+        if err > 1e-10 or len(vals) != want_len or str(hkl.unit) != 'dimensionless':
+            if len(fails) < limit:
+                fails.append({'id': f'arrays{i}', 'seed': seed, 'index': i, 'kind': 'arrays', 'shapes(Q,UB,R)': bits, 'residual': err,
+                              'n_results': len(vals), 'unit': str(hkl.unit)})
+    return fails
+
+
 def bounded_numeric(chk):
     n = 300 if chk.tier == 'quick' else 5000
     fails, worst = _numeric_failures(n, 77 + chk.seed)
     chk.bounded_check('Q-and-hkl-rounding', 'real kernels vs numpy on random SO(3) rotations, cond(B) <= 1e6', f'{n} random cases',
                       n, fails, detail=f'worst scaled error {worst:.3g}')
+    m = 64 if chk.tier == 'quick' else 1600
+    fails = _array_operand_failures(m, 91 + chk.seed)
+    chk.bounded_check('hkl-array-operands', 'real hkl_vec_from_Q_vec with scalar / array-valued Q, UB, rotation in all 8 combinations: '
+                      '2 pi R_k UB_k hkl_k == Q_k element by element', f'{m} cases (8 shape combinations x {m // 8})', m, fails)
 
 
 def replay(rec):
     if '/bounded/' in rec['obligation']:
         f = rec.get('meta', {}).get('replay') or rec.get('model') or {}
+        if f.get('kind') == 'arrays':
+            fails = _array_operand_failures(int(f.get('index', 0)) + 1, int(f.get('seed', 91)), limit=10 ** 6)
+            hit = [x for x in fails if x['index'] == f.get('index')]
+            return {'reproduced': bool(hit), 'case': hit[:1]}
         fails, worst = _numeric_failures(int(f.get('index', 0)) + 1, int(f.get('seed', 77)), limit=1000)
         hit = [x for x in fails if x['index'] == f.get('index')]
         return {'reproduced': bool(hit), 'case': hit[:1]}
